@@ -83,6 +83,7 @@ type peerQ struct {
 	pipeOn    *peerQ // pipelined on this question
 	pipeClass string // unreturned | returned | racing (decided from the log at the end)
 	argSlots  []int  // content slot -> cap-table index of the parameters (-1 none)
+	argLocals []*rpcbench.LocalCap // per parameter cap-table entry: the Conn-side capability a receiverHosted entry named when it was sent
 	// looped back by the Conn to a capability hosted by the peer
 	fwdArrived  bool
 	fwdArrivedT int64
